@@ -270,7 +270,12 @@ def run(ctx):
             TRF.update(saved_all)
         xin = T.atom(f.params[0])
         leaves = list(T.phi_leaves(rh))
-        okh = all(l == xin or (l[0] == "f" and l[1].endswith("from_dlpack") and xin in l[2]) for l in leaves)
+        def _same_values(t):
+            # x itself, or x through layout-only methods (detach / contiguous / clone keep every value)
+            while t and t[0] == "f" and t[1] in ("method:detach", "method:contiguous", "method:clone") and t[2]:
+                t = t[2][0]
+            return t == xin
+        okh = all(_same_values(l) or (l[0] == "f" and l[1].endswith("from_dlpack") and any(_same_values(a_) for a_ in l[2])) for l in leaves)
         ctx.decide(okh, "C15.helpers", f.ident, loc_of(f), f"{name}(x, ...) returns x converted (value preserving) on every path",
                    f"{name} returns {T.show(rh)[:160]}, which is not a conversion of its first argument on every path", disc="value")
         if name == "asarray":
@@ -285,6 +290,37 @@ def run(ctx):
             ctx.decide(okd and okc and okt, "C15.helpers", f.ident, loc_of(f), "a requested dtype is resolved for the target namespace and applied on both conversion paths",
                        "asarray does not apply the requested dtype, resolved for the target namespace, on every conversion path (plain xp.asarray and the JAX->torch DLPack route)", disc="dtype")
 
+    # ---- zero-copy hand-over (DLPack): the importer must accept every layout the exporter can produce.  Frozen API table, one line each:
+    #      JAX arrays are always compact -> any importer takes them; torch tensors may be strided views (row selection, `x[:, 0]`, `x[::2]`
+    #      -- BaseSamples.__getitem__ produces them) and JAX's importer rejects non-compact strides -> a torch source needs .contiguous() / .clone()
+    n_dl = 0
+    for f_ in repo.all_functions():
+        par_ = None
+        for c_ in walk_no_nested(f_.node):
+            if not (isinstance(c_, ast.Call) and ((isinstance(c_.func, ast.Attribute) and c_.func.attr == "from_dlpack") or getattr(c_.func, "id", None) == "from_dlpack") and c_.args):
+                continue
+            n_dl += 1
+            if par_ is None:
+                par_ = {ch: p_ for p_ in ast.walk(f_.node) for ch in ast.iter_child_nodes(p_)}
+            tests, cur = [], c_
+            while cur in par_:
+                prev, cur = cur, par_[cur]
+                if isinstance(cur, ast.If) and prev in cur.body:
+                    tests.append(cur.test)
+            names = {getattr(x.func, "id", getattr(x.func, "attr", None)) for t_ in tests for x in ast.walk(t_) if isinstance(x, ast.Call)}
+            src_txt = ast.unparse(c_.args[0])
+            compact = any(isinstance(x, ast.Call) and isinstance(x.func, ast.Attribute) and x.func.attr in ("contiguous", "clone", "copy") for x in ast.walk(c_.args[0]))
+            if "is_jax_array" in names and "is_torch_array" not in names:
+                ctx.prove("C15.helpers", f_.ident, loc_of(f_, c_), "DLPack hand-over of a JAX array (always compact): every importer accepts it", disc=f"dlpack|{n_dl}")
+            elif "is_torch_array" in names:
+                ctx.decide(compact, "C15.helpers", f_.ident, loc_of(f_, c_), "DLPack hand-over of a torch tensor made contiguous first",
+                           f"from_dlpack({src_txt[:40]}) imports a torch tensor as it is: tensors that are strided views (a thinned chain `x[::2]`, a column `x[:, 0]`, a row selection) are exported "
+                           "with their real strides and JAX's importer rejects non-compact layouts -- the conversion of such a sample set raises, where xp.asarray() copied and accepted any layout",
+                           disc=f"dlpack|{n_dl}")
+            else:
+                ctx.unknown("C15.helpers", f_.ident, loc_of(f_, c_), f"from_dlpack({src_txt[:40]}): the library of the source array is not established by the enclosing tests", disc=f"dlpack|{n_dl}")
+    ctx.count("dlpack_hand_overs", n_dl)
+
     # ---- output namespace option
     A = repo.cls("aspire.aspire:Aspire")
     sp = A.methods["sample_posterior"]
@@ -294,6 +330,27 @@ def run(ctx):
             for c in ast.walk(n):
                 if isinstance(c, ast.Call) and isinstance(c.func, ast.Attribute) and c.func.attr == "to_namespace" and c.args and isinstance(c.args[0], ast.Name) and c.args[0].id == "xp":
                     routed = True
+    # a dtype handed to a namespace conversion from outside the sample classes is a dtype *of the target namespace*: the conversion only
+    # resolve_dtype()s it, which names strings but does not translate a dtype object of another library (convert_dtype does)
+    n_tn = 0
+    for f_ in repo.all_functions():
+        for c_ in walk_no_nested(f_.node):
+            if not (isinstance(c_, ast.Call) and isinstance(c_.func, ast.Attribute) and c_.func.attr == "to_namespace" and c_.args):
+                continue
+            n_tn += 1
+            dv = next((k.value for k in c_.keywords if k.arg == "dtype"), c_.args[1] if len(c_.args) > 1 else None)
+            if dv is None or (isinstance(dv, ast.Constant) and (dv.value is None or isinstance(dv.value, str))):
+                continue
+            tgt_txt = ast.unparse(c_.args[0])
+            conv = isinstance(dv, ast.Call) and (getattr(dv.func, "id", None) or getattr(dv.func, "attr", None)) == "convert_dtype" and len(dv.args) >= 2 and ast.unparse(dv.args[1]) == tgt_txt
+            # a method of the sample classes passing its own `dtype` parameter on to the conversion it extends is the same request, not a new one
+            passthrough = isinstance(dv, ast.Name) and dv.id in f_.params and f_.name == "to_namespace"
+            ctx.decide(conv or passthrough, "C15.route", f_.ident, loc_of(f_, c_),
+                       "the dtype handed to to_namespace() was converted for the target namespace",
+                       f"to_namespace({tgt_txt}, dtype={ast.unparse(dv)[:40]}) hands a dtype configured for the instance's own namespace to a conversion into another one: "
+                       "resolve_dtype() does not translate a dtype object of a foreign library (torch.float64 into NumPy, numpy.dtype into torch), so the conversion raises or "
+                       "builds arrays of the wrong type for those ordered pairs -- use convert_dtype(dtype, target) or pass nothing", disc=f"dtype|{n_tn}")
+    ctx.count("to_namespace_call_sites", n_tn)
     ctx.decide(routed, "C15.route", sp.ident, loc_of(sp), "sample_posterior(xp=...) converts the result with to_namespace(xp)",
                "sample_posterior ignores its xp option")
 
@@ -484,6 +541,9 @@ MUTANTS = [
     M("array_to_namespace into numpy always", _S, "x = asarray(x, self.xp, **kwargs)", "x = asarray(x, np, **kwargs)", "C15.a2n"),
 ]
 MUTANTS += [
+    M("torch to JAX hand-over through DLPack without making the tensor contiguous", "src/aspire/utils.py", "if dtype is not None:\n        kwargs[\"dtype\"] = resolve_dtype(dtype, xp=xp)\n    return xp.asarray(x, **kwargs)",
+      "if is_torch_array(x) and is_jax_namespace(xp) and not kwargs:\n        array = xp.from_dlpack(x.detach())\n        return array if dtype is None else array.astype(resolve_dtype(dtype, xp=xp))\n    if dtype is not None:\n        kwargs[\"dtype\"] = resolve_dtype(dtype, xp=xp)\n    return xp.asarray(x, **kwargs)", "C15.helpers"),
+    M("output namespace option re-applies the instance's dtype object", _A, "samples = samples.to_namespace(xp)", "samples = samples.to_namespace(xp, dtype=self.dtype)", "C15.route"),
     M("per-step ratio returned as a Python float", _S, "return logsumexp(log_w) - math.log(len(self.x))", "return float(logsumexp(log_w) - math.log(len(self.x)))", "C15.evid"),
     M("evidence ratios narrowed to Python floats before they are recorded", "src/aspire/samplers/smc/base.py", "log_evidence_ratio = samples.log_evidence_ratio(beta)", "log_evidence_ratio = float(samples.log_evidence_ratio(beta))", "C15.evid"),
     M("evidence ratios recorded as Python floats", "src/aspire/samplers/smc/base.py", "self.history.log_norm_ratio.append(log_evidence_ratio)", "self.history.log_norm_ratio.append(float(log_evidence_ratio))", "C15.evid"),
@@ -510,6 +570,8 @@ MUTANTS += [
     M("to_numpy returns something else on the fallback path", _U, "except (ValueError, NotImplementedError):\n        return np.asarray(x, **kwargs)", "except (ValueError, NotImplementedError):\n        return np.zeros_like(x)", "C15.helpers"),
 ]
 NEUTRALS = [
+    M("torch to JAX hand-over through DLPack of a contiguous copy", "src/aspire/utils.py", "if dtype is not None:\n        kwargs[\"dtype\"] = resolve_dtype(dtype, xp=xp)\n    return xp.asarray(x, **kwargs)",
+      "if is_torch_array(x) and is_jax_namespace(xp) and not kwargs:\n        array = xp.from_dlpack(x.detach().contiguous())\n        return array if dtype is None else array.astype(resolve_dtype(dtype, xp=xp))\n    if dtype is not None:\n        kwargs[\"dtype\"] = resolve_dtype(dtype, xp=xp)\n    return xp.asarray(x, **kwargs)"),
     M("log N taken with NumPy but converted to a Python float", _S, "asarray(logsumexp(self.log_w), self.xp) - math.log(\n            len(self.x)\n        )", "asarray(logsumexp(self.log_w), self.xp) - float(np.log(len(self.x)))"),
     M("sampler dtype through a local", "src/aspire/samplers/importance.py", "x, log_q = self.prior_flow.sample_and_log_prob(n_samples)\n        samples = Samples(\n            x,\n            log_q=log_q,\n            xp=self.xp,\n            parameters=self.parameters,\n            dtype=self.dtype,",
       "x, log_q = self.prior_flow.sample_and_log_prob(n_samples)\n        precision = self.dtype\n        samples = Samples(\n            x,\n            log_q=log_q,\n            xp=self.xp,\n            parameters=self.parameters,\n            dtype=precision,"),
